@@ -86,6 +86,7 @@ def init : St := { step := .waiting, S := .nil, K := .zero }
 inductive Out
   | http500
   | tlv (state : Nat) (err : Option Nat) (hasKey hasProof hasEnc : Bool)
+  | panic                          -- the handler panics (net/http then drops the connection without an answer)
 deriving DecidableEq, Repr
 
 /-- effect on the pairing database: `SaveEntity(name, key)` -/
@@ -102,7 +103,8 @@ def sigOk (st : St) (name : Nat) (key : Nat) : SigRef → Bool
 def reset (st : St) : St := { st with step := .waiting }
 
 /-- one request on connection `c` (the repaired controller; `fixed := false` reproduces the behaviour before the
-    `fix:` commits: step kept at verifyResp when `ComputeKey` fails) -/
+    `fix:` commits: step kept at verifyResp when `ComputeKey` fails; slicing a short M5 and `log.Info.Panic` on an
+    authentication failure panic) -/
 def step (fixed : Bool) (c : Nat) (st : St) : In → St × Out × Save
   | .malformedTlv => (st, .http500, none)
   | .badMethod => (st, .http500, none)
@@ -122,10 +124,10 @@ def step (fixed : Bool) (c : Nat) (st : St) : In → St × Out × Save
   | .m5 d =>
     if st.step ≠ .verifyResp then (reset st, .http500, none)
     else match d with
-      | .short _ => (reset st, .http500, none)
+      | .short _ => if fixed then (reset st, .http500, none) else ({ st with step := .exchResp }, .panic, none)
       | .sealed k nonceOk intact pt =>
         match openSealed st (.sealed k nonceOk intact pt) with
-        | none => (reset st, .tlv 6 (some 1) false false false, none)
+        | none => (reset st, if fixed then .tlv 6 (some 1) false false false else .panic, none)
         | some .malformed => ({ st with step := .exchResp }, .http500, none)
         | some (.tlv name key sig) =>
           match key with
